@@ -1,12 +1,585 @@
-// Package c13 checks property C13 (not built yet).
+// Package c13 checks property C13: any number of goroutines may print the same
+// module, function or block concurrently, free of data races, and every call
+// returns the text a lone sequential call returns.
+//
+// (S) spec/PrintConc.tla is checked by TLC as implemented and as required, from
+// both start states. The racy workload itself runs in child processes (this
+// binary re-executed, built with -race) so that the detector's reports are
+// captured, classified in the vocabulary of the model and matched against the
+// known findings instead of killing the check. (T) the hook events of the real
+// ID assignment are judged by spec/PrintConcTrace.tla.
 package c13
 
 import (
+	"encoding/json"
+	"fmt"
+	"os"
+	"os/exec"
+	"path/filepath"
+	"reflect"
+	"regexp"
+	"sort"
+	"strconv"
+	"strings"
+	"sync"
+	"time"
+
+	"github.com/llir/llvm/ir"
+
 	"verif/harness/mbt"
 	"verif/harness/props/reg"
 )
 
 func init() { reg.Register("C13", Run) }
 
+const childEnv = "VERIF_C13_CHILD"
+
+// --- (S) design level -----------------------------------------------------------
+
+type tlcJob struct {
+	label   string
+	cfg     string
+	consts  map[string]string
+	expect  []string // invariants expected to be violated (nil: none)
+	collect bool     // log cfg: collect RACE / TEXT classes
+	res     *mbt.TLCResult
+}
+
+var reRaceLine = regexp.MustCompile(`<<"RACE", "([^"]+)", "([^"]+)", "([^"]+)">>`)
+var reTextLine = regexp.MustCompile(`<<"TEXT", "([^"]+)">>`)
+
+func mix(m, f, b string) map[string]string {
+	return map[string]string{"ModulePrinters": m, "FuncPrinters": f, "BlockPrinters": b}
+}
+
+func with(base map[string]string, kv ...string) map[string]string {
+	out := map[string]string{}
+	for k, v := range base {
+		out[k] = v
+	}
+	for i := 0; i+1 < len(kv); i += 2 {
+		out[kv[i]] = kv[i+1]
+	}
+	return out
+}
+
+// design runs the PrintConc configurations and returns the race classes the
+// model predicts as implemented and with the repair (WriteOnlyIfChanged).
+func design(rep *mbt.Report, tier string) (asImpl, repaired map[string]bool) {
+	two := mix("{1, 2}", "{}", "{}")
+	mixed := mix("{1}", "{2}", "{3}")
+	three := mix("{1, 2, 3}", "{}", "{}")
+	jobs := []*tlcJob{
+		// as implemented: TLC must report the race from both start states
+		{label: "as-implemented, 2 module printers, already printed", cfg: "PrintConc.cfg", consts: with(two, "WriteOnlyIfChanged", "FALSE"), expect: []string{"NoRace"}},
+		{label: "as-implemented, 2 module printers, never printed", cfg: "PrintConc.cfg", consts: with(two, "WriteOnlyIfChanged", "FALSE", "StartPrinted", "FALSE"), expect: []string{"NoRace"}},
+		// as implemented: which classes of races exist (vocabulary of the signatures)
+		{label: "as-implemented classes, 2 module printers, printed", cfg: "PrintConcLog.cfg", consts: with(two, "WriteOnlyIfChanged", "FALSE"), collect: true},
+		{label: "as-implemented classes, 2 module printers, fresh", cfg: "PrintConcLog.cfg", consts: with(two, "WriteOnlyIfChanged", "FALSE", "StartPrinted", "FALSE"), collect: true},
+		{label: "as-implemented classes, module+func+block, printed", cfg: "PrintConcLog.cfg", consts: with(mixed, "WriteOnlyIfChanged", "FALSE"), collect: true},
+		{label: "as-implemented classes, module+func+block, fresh", cfg: "PrintConcLog.cfg", consts: with(mixed, "WriteOnlyIfChanged", "FALSE", "StartPrinted", "FALSE"), collect: true},
+		// required behaviour (write only if changed): race-free wherever every reader is
+		// numbered or takes the lock itself
+		{label: "repaired, 2 module printers, printed", cfg: "PrintConc.cfg", consts: two},
+		{label: "repaired, 2 module printers, fresh", cfg: "PrintConc.cfg", consts: with(two, "StartPrinted", "FALSE")},
+		{label: "repaired, module+func+block, printed", cfg: "PrintConc.cfg", consts: mixed},
+		{label: "repaired classes, module+func+block, fresh (residual)", cfg: "PrintConcLog.cfg", consts: with(mixed, "StartPrinted", "FALSE"), collect: true},
+		// no deadlock between the two mutexes: every printer terminates
+		{label: "repaired, termination", cfg: "PrintConcLive.cfg", consts: with(two, "StartPrinted", "FALSE")},
+		// sensitivity: with a Lock removed the model must fail
+		{label: "sensitivity: Module lock removed", cfg: "PrintConc.cfg", consts: with(two, "LockGlobals", "FALSE", "StartPrinted", "FALSE"), expect: []string{"NoRace", "Mutex"}},
+		{label: "sensitivity: Func lock removed", cfg: "PrintConc.cfg", consts: with(two, "LockLocals", "FALSE", "StartPrinted", "FALSE"), expect: []string{"NoRace", "Mutex"}},
+		{label: "sensitivity: lazily cached types not pre-computed", cfg: "PrintConcLog.cfg", consts: with(mixed, "StartPrinted", "FALSE", "CachePrefilled", "FALSE"), collect: true},
+	}
+	if tier == "thorough" {
+		jobs = append(jobs,
+			&tlcJob{label: "repaired, 3 module printers, printed", cfg: "PrintConc.cfg", consts: three},
+			&tlcJob{label: "repaired, 3 module printers, fresh", cfg: "PrintConc.cfg", consts: with(three, "StartPrinted", "FALSE")},
+			&tlcJob{label: "repaired, 2 functions, module+func+block, printed", cfg: "PrintConc.cfg", consts: with(mixed, "NF", "2")},
+			&tlcJob{label: "repaired, 2 module + 1 func printer, fresh, 2 functions", cfg: "PrintConc.cfg", consts: with(mix("{1, 2}", "{3}", "{}"), "NF", "2", "NL", "1", "StartPrinted", "FALSE"), expect: []string{"NoRace", "TextEqual"}},
+		)
+	}
+	// three TLC runs at a time, four workers each
+	sem := make(chan struct{}, 3)
+	var wg sync.WaitGroup
+	for _, j := range jobs {
+		wg.Add(1)
+		go func(j *tlcJob) {
+			defer wg.Done()
+			sem <- struct{}{}
+			defer func() { <-sem }()
+			j.res = mbt.MustTLC(mbt.TLCOpts{Spec: "PrintConc", Cfg: j.cfg, Consts: j.consts, Workers: 4, Timeout: 15 * time.Minute})
+		}(j)
+	}
+	wg.Wait()
+	asImpl, repaired = map[string]bool{}, map[string]bool{}
+	var results []map[string]interface{}
+	for _, j := range jobs {
+		t := j.res
+		rep.AddTLC(t)
+		rep.Count("tlc:"+j.label, true)
+		results = append(results, map[string]interface{}{"config": j.label, "distinct": t.Distinct, "generated": t.Generated, "violated": t.Violated, "wall_s": t.Wall.Seconds()})
+		// expectations are about the *model*: a mismatch means the specification or its
+		// documentation is out of date, never that the code is wrong
+		if len(j.expect) > 0 { // TLC stops at the first violated invariant: any of the expected ones will do
+			found := false
+			for _, e := range j.expect {
+				for _, v := range t.Violated {
+					found = found || v == e
+				}
+			}
+			if !found {
+				mbt.Infra("PrintConc (%s): expected one of %v to be violated, TLC reports %v", j.label, j.expect, t.Violated)
+			}
+		}
+		if len(j.expect) == 0 && len(t.Violated) > 0 {
+			mbt.Infra("PrintConc (%s): TLC reports %v violated; the required design is expected to hold here", j.label, t.Violated)
+		}
+		if j.collect {
+			for _, m := range reRaceLine.FindAllStringSubmatch(t.Output, -1) {
+				k := m[1] + "|" + m[2] + "|" + m[3]
+				if strings.HasPrefix(j.label, "as-implemented") {
+					asImpl[k] = true
+				} else if strings.HasPrefix(j.label, "repaired") {
+					repaired[k] = true
+				}
+			}
+			if strings.HasPrefix(j.label, "sensitivity") && !strings.Contains(t.Output, `"typ"`) {
+				mbt.Infra("PrintConc (%s): no race on a typ cell predicted", j.label)
+			}
+		}
+		t.Cleanup()
+	}
+	rep.Extra["tlc_runs"] = results
+	rep.Extra["model_race_classes_as_implemented"] = keys(asImpl)
+	rep.Extra["model_race_classes_repaired_residual"] = keys(repaired)
+	if len(asImpl) == 0 {
+		mbt.Infra("PrintConc: the as-implemented model predicts no race class")
+	}
+	return asImpl, repaired
+}
+
+func keys(m map[string]bool) []string {
+	var ks []string
+	for k := range m {
+		ks = append(ks, k)
+	}
+	sort.Strings(ks)
+	return ks
+}
+
+// --- static pre-check: lazily cached fields that a print would write -------------
+
+// nilCaches lists (struct type).Typ fields that are nil in m: each is a write
+// during printing in the model (typ cell not pre-filled).
+func nilCaches(m *ir.Module) (nilFields map[string]int, total int) {
+	nilFields = map[string]int{}
+	seen := map[uintptr]bool{}
+	var walk func(v reflect.Value, depth int)
+	walk = func(v reflect.Value, depth int) {
+		if depth > 400 {
+			return
+		}
+		switch v.Kind() {
+		case reflect.Ptr:
+			if v.IsNil() || seen[v.Pointer()] {
+				return
+			}
+			seen[v.Pointer()] = true
+			walk(v.Elem(), depth+1)
+		case reflect.Interface:
+			if !v.IsNil() {
+				walk(v.Elem(), depth+1)
+			}
+		case reflect.Struct:
+			t := v.Type()
+			_, hasType := reflect.PointerTo(t).MethodByName("Type")
+			for i := 0; i < v.NumField(); i++ {
+				f := t.Field(i)
+				if f.PkgPath != "" {
+					continue
+				}
+				fv := v.Field(i)
+				if f.Name == "Typ" && hasType && (fv.Kind() == reflect.Ptr || fv.Kind() == reflect.Interface) {
+					total++
+					if fv.IsNil() {
+						nilFields[t.String()+".Typ"]++
+					}
+				}
+				walk(fv, depth+1)
+			}
+		case reflect.Slice, reflect.Array:
+			for i := 0; i < v.Len(); i++ {
+				walk(v.Index(i), depth+1)
+			}
+		case reflect.Map:
+			for _, k := range v.MapKeys() {
+				walk(v.MapIndex(k), depth+1)
+			}
+		}
+	}
+	walk(reflect.ValueOf(m), 0)
+	return nilFields, total
+}
+
+// --- children -------------------------------------------------------------------
+
+type childOutcome struct {
+	sc      scenario
+	res     childResult
+	races   []raceReport
+	crashed string
+}
+
+func runChild(dir string, sc scenario, idx int) childOutcome {
+	out := childOutcome{sc: sc}
+	scPath := filepath.Join(dir, fmt.Sprintf("sc%d.json", idx))
+	sc.Out = filepath.Join(dir, fmt.Sprintf("res%d.json", idx))
+	out.sc = sc
+	b, _ := json.Marshal(sc)
+	if err := os.WriteFile(scPath, b, 0o644); err != nil {
+		mbt.Infra("%v", err)
+	}
+	logBase := filepath.Join(dir, fmt.Sprintf("race%d", idx))
+	cmd := exec.Command("timeout", "300", os.Args[0], "quick")
+	cmd.Env = append(os.Environ(), childEnv+"="+scPath,
+		"GORACE=halt_on_error=0 exitcode=0 atexit_sleep_ms=0 history_size=5 log_path="+logBase)
+	co, err := cmd.CombinedOutput()
+	if err != nil {
+		out.crashed = fmt.Sprintf("%v: %s", err, mbt.Truncate(string(co), 2000))
+	}
+	logs, _ := filepath.Glob(logBase + ".*")
+	for _, l := range logs {
+		if lb, err := os.ReadFile(l); err == nil {
+			out.races = append(out.races, parseRaceLog(string(lb))...)
+		}
+	}
+	if out.crashed == "" {
+		if err := mbt.ReadJSON(sc.Out, &out.res); err != nil {
+			out.crashed = "no result file: " + err.Error() + " " + mbt.Truncate(string(co), 1000)
+		}
+	}
+	return out
+}
+
+func scenarios(tier string, seed int64) []scenario {
+	var out []scenario
+	ns := []int{2, 4, 8}
+	for _, src := range sources(tier) {
+		for _, start := range []string{"never-printed", "already-printed"} {
+			for _, mixName := range []string{"module", "mixed", "func+block"} {
+				for _, n := range ns {
+					if !src.Unnamed && n != 4 {
+						continue
+					}
+					if strings.HasPrefix(src.Name, "parsed:") && src.Name != "parsed:mix" && (n != 4 || mixName == "func+block") {
+						continue // corpus files: one N per start state and mix
+					}
+					sc := scenario{Source: src.Name, Tier: tier, Start: start, Mix: mixName, N: n}
+					if start == "never-printed" {
+						// a module is fresh once: many rounds, few calls per round
+						sc.Rounds, sc.K = 60, 2
+					} else {
+						sc.Rounds, sc.K = 6, 20
+					}
+					if tier == "thorough" {
+						sc.Rounds *= 5
+					}
+					sc.TraceRounds = 2
+					sc.Name = fmt.Sprintf("%s/%s/%s/N=%d", src.Name, start, mixName, n)
+					out = append(out, sc)
+				}
+			}
+		}
+	}
+	_ = seed // goroutine schedules are the runtime's; the seed only labels the run
+	return out
+}
+
+func numberedStart(sc scenario) bool {
+	return strings.HasPrefix(sc.Source, "parsed:") || sc.Start == "already-printed"
+}
+
+func idsLabel(sc scenario) string {
+	if numberedStart(sc) {
+		return "ids=assigned"
+	}
+	return "ids=unassigned"
+}
+
+var reBadEv = regexp.MustCompile(`<<"BADEV", "([^"]+)", (\d+), (\d+), (\d+)>>`)
+
 // Run is the C13 check.
-func Run(tier, replay string) { mbt.Infra("check C13 is not built yet") }
+func Run(tier, replay string) {
+	if p := os.Getenv(childEnv); p != "" {
+		childMain(p)
+		os.Exit(0)
+	}
+	rep := mbt.NewReport("C13", tier, "model_checking")
+	rep.Rule = "scenarios (module source x start state x mix of entry points x N goroutines, each repeated over many rounds under the Go race detector) plus critical-section histories judged by PrintConcTrace and PrintConc configurations explored by TLC"
+	rep.Assumptions = []string{
+		"the Go race detector reports a race only if the two accesses were actually unordered in the observed schedule: absence of a report in this run is not a proof; the design-level proof is TLC's on spec/PrintConc.tla",
+		"the recording hook adds no synchronisation (per-goroutine buffers, per-mutex counters touched inside the critical section only)",
+		"ir.VerifHook events are emitted inside the critical sections as committed in /repo (tag verif)",
+	}
+
+	var scs []scenario
+	if replay != "" {
+		scs = replayScenarios(replay)
+	} else {
+		scs = scenarios(tier, mbt.Seed())
+	}
+
+	// (S) TLC on the design, concurrently with the start of the workload
+	var asImpl, residual map[string]bool
+	designDone := make(chan struct{})
+	t0 := time.Now()
+	phases := map[string]float64{}
+	go func() {
+		asImpl, residual = design(rep, tier)
+		phases["tlc_design"] = time.Since(t0).Seconds()
+		close(designDone)
+	}()
+
+	// children, a few at a time (each uses up to 8 threads)
+	dir, err := os.MkdirTemp("", "verif-c13-")
+	if err != nil {
+		mbt.Infra("%v", err)
+	}
+	defer os.RemoveAll(dir)
+	outs := make([]childOutcome, len(scs))
+	sem := make(chan struct{}, 3)
+	var wg sync.WaitGroup
+	for i, sc := range scs {
+		wg.Add(1)
+		go func(i int, sc scenario) {
+			defer wg.Done()
+			sem <- struct{}{}
+			defer func() { <-sem }()
+			outs[i] = runChild(dir, sc, i)
+		}(i, sc)
+	}
+	wg.Wait()
+	childWall := time.Since(t0).Seconds()
+	<-designDone
+	phases["children"] = childWall
+
+	// static pre-check
+	staticFail := map[string]string{}
+	for _, src := range sources(tier) {
+		m := src.Build()
+		nf, total := nilCaches(m)
+		rep.Count("static:"+src.Name, total > 0)
+		for k, n := range nf {
+			if k == "ir.Byval.Typ" || k == "ir.InAlloca.Typ" || k == "ir.Preallocated.Typ" || k == "ir.SRet.Typ" || k == "ir.ByRef.Typ" || k == "ir.ElementType.Typ" {
+				continue // optional type of a parameter attribute, not a cache
+			}
+			kind := "constructed"
+			if src.Parsed {
+				kind = "parsed"
+			}
+			staticFail["C13|static|nil-cache|"+k+"|"+kind] = fmt.Sprintf("%s: %d %s fields are nil after %s: Type() writes them during the first print, without a lock", src.Name, n, k, kind)
+		}
+	}
+	for sig, what := range staticFail {
+		rep.Fail(mbt.Failure{Signature: sig, What: what, Case: map[string]string{"kind": "static"}})
+	}
+
+
+	observed := map[string]int{}
+	unclassified := 0
+	var rows []traceRow
+	rowScenario := []scenario{}
+	calls, setids := 0, 0
+	for _, o := range outs {
+		sc := o.sc
+		if o.crashed != "" {
+			os.RemoveAll(dir)
+			mbt.Infra("child %s failed: %s", sc.Name, o.crashed)
+		}
+		rep.Count("scenario:"+sc.Name, sc.N >= 2)
+		calls += o.res.Calls
+		setids += o.res.SetIDs
+		caseOf := func(extra map[string]interface{}) map[string]interface{} {
+			c := map[string]interface{}{"scenario": sc}
+			for k, v := range extra {
+				c[k] = v
+			}
+			return c
+		}
+		perClass := map[string]raceReport{}
+		for _, r := range o.races {
+			c, ok := classify(r)
+			if !ok {
+				unclassified++
+				continue
+			}
+			if _, dup := perClass[c.String()]; !dup {
+				perClass[c.String()] = r
+			}
+		}
+		if len(perClass) == 0 && len(o.races) > 0 {
+			// only reports with a missing stack: not attributable
+			rep.Fail(mbt.Failure{Signature: "C13|race|unclassified|" + idsLabel(sc), What: "data race reported but a stack could not be restored: " + mbt.Truncate(o.races[0].Text, 600), Case: caseOf(nil)})
+		}
+		for k, r := range perClass {
+			observed[k+"|"+idsLabel(sc)]++
+			note := ""
+			if !asImpl[k] {
+				note = " [a class the as-implemented model does not predict]"
+			} else if residual[k] && !numberedStart(sc) {
+				note = " [remains in the model with write-only-if-changed: reader that does not take the lock, next to a first print]"
+			} else {
+				note = " [cured in the model by write-only-if-changed]"
+			}
+			rep.Fail(mbt.Failure{
+				Signature: "C13|race|" + k + "|" + idsLabel(sc),
+				What:      fmt.Sprintf("%s: data race%s: %s", sc.Name, note, summarise(r)),
+				Case:      caseOf(map[string]interface{}{"report": mbt.Truncate(r.Text, 4000)}),
+			})
+		}
+		byEntry := map[string]mismatch{}
+		for _, mm := range o.res.Mismatches {
+			e := strings.TrimSuffix(mm.Entry, "-writeto")
+			if _, ok := byEntry[e]; !ok || byEntry[e].Want == "" {
+				byEntry[e] = mm
+			}
+		}
+		for e, mm := range byEntry {
+			rd := "locking-printer"
+			if e == "block" || e == "ident" || (e == "func" && sc.Mix != "func+block") || (e == "func" && !numberedStart(sc)) {
+				rd = "lock-free-reader"
+			}
+			rep.Fail(mbt.Failure{
+				Signature: "C13|text|" + rd + "|" + idsLabel(sc),
+				What:      fmt.Sprintf("%s: a concurrent %s print differs from the lone sequential call: %s", sc.Name, e, firstDiff(mm.Want, mm.Got)),
+				Case:      caseOf(map[string]interface{}{"entry": e, "want": mbt.Truncate(mm.Want, 3000), "got": mbt.Truncate(mm.Got, 3000)}),
+			})
+		}
+		for _, p := range o.res.Panics {
+			rep.Fail(mbt.Failure{Signature: "C13|panic|" + idsLabel(sc), What: sc.Name + ": a concurrent printer panicked: " + mbt.Truncate(p, 300), Case: caseOf(nil)})
+		}
+		for _, r := range o.res.Rows {
+			rows = append(rows, r)
+			rowScenario = append(rowScenario, sc)
+		}
+	}
+	rep.Extra["race_classes_observed"] = observed
+	rep.Extra["race_reports_unclassified"] = unclassified
+	rep.Extra["printing_calls"] = calls
+	rep.Extra["setid_events_recorded"] = setids
+	if calls == 0 {
+		mbt.Infra("dead driver: no printing call was made")
+	}
+
+	// (T) hook events judged by PrintConcTrace
+	if len(rows) > 0 {
+		t := mbt.MustTLC(mbt.TLCOpts{Spec: "PrintConcTrace", Cfg: "PrintConcTrace.cfg", Workers: 4, Timeout: 15 * time.Minute,
+			Data: map[string][]byte{"printconc_trace.ndjson": mbt.NDJSONBytes(rows)}})
+		if len(t.Violated) > 0 {
+			mbt.Infra("PrintConcTrace: unexpected violation %v", t.Violated)
+		}
+		if t.Distinct != int64(len(rows))+1 {
+			mbt.Infra("PrintConcTrace consumed %d rows of %d", t.Distinct-1, len(rows))
+		}
+		rep.AddTLC(t)
+		rep.TracesValidated += len(rows)
+		type key struct{ law, site, ids string }
+		first := map[key]string{}
+		cnt := map[key]int{}
+		var order []key
+		for _, m := range reBadEv.FindAllStringSubmatch(t.Output, -1) {
+			ri, _ := strconv.Atoi(m[2])
+			ei, _ := strconv.Atoi(m[3])
+			row := rows[ri-1]
+			site := "Func.AssignIDs"
+			if row.Mu == "m" {
+				site = "Module.AssignGlobalIDs/AssignMetadataIDs"
+			} else if row.Mu == "none" {
+				site = "no-mutex"
+			}
+			k := key{m[1], site, idsLabel(rowScenario[ri-1])}
+			n, _ := strconv.Atoi(m[4])
+			cnt[k] += n
+			if _, ok := first[k]; !ok {
+				ev := "(end of row)"
+				if ei-1 < len(row.Evs) {
+					ev = fmt.Sprint(row.Evs[ei-1])
+				}
+				first[k] = fmt.Sprintf("%s mutex %s event %d [g ev old new seq]=%s", row.Sc, row.Mu, ei, ev)
+				order = append(order, k)
+			}
+		}
+		for _, k := range order {
+			what := fmt.Sprintf("hook trace violates %s at %s (%d events), e.g. %s", k.law, k.site, cnt[k], first[k])
+			if k.law == "redundant-setid" {
+				what += "; every ID already had its value: SetID rewrites it under the lock while other printers read it without the lock (PrintConc.cfg with WriteOnlyIfChanged=FALSE shows the racing interleaving)"
+			}
+			rep.Fail(mbt.Failure{Signature: "C13|trace|" + k.law + "|" + k.site, What: what, Case: map[string]interface{}{"kind": "trace", "example": first[k]}})
+		}
+		t.Cleanup()
+		phases["tlc_trace"] = t.Wall.Seconds()
+	}
+	rep.Extra["phase_wall_s"] = phases
+	for i, o := range outs {
+		if i < 3 {
+			rep.Sample(map[string]interface{}{"scenario": o.sc.Name, "calls": o.res.Calls, "race_reports": len(o.races), "text_mismatches": len(o.res.Mismatches), "trace_rows": len(o.res.Rows)})
+		}
+	}
+	rep.Exhaustive = false
+	rep.Finish()
+}
+
+func summarise(r raceReport) string {
+	var parts []string
+	for _, a := range r.Acc {
+		k := "read"
+		if a.Write {
+			k = "write"
+		}
+		fr := a.Frames
+		if len(fr) > 4 {
+			fr = fr[:4]
+		}
+		parts = append(parts, k+" in "+strings.Join(fr, " < "))
+	}
+	return strings.Join(parts, "  ||  ")
+}
+
+func firstDiff(a, b string) string {
+	la, lb := strings.Split(a, "\n"), strings.Split(b, "\n")
+	for i := 0; i < len(la) && i < len(lb); i++ {
+		if la[i] != lb[i] {
+			return fmt.Sprintf("line %d: want %q, got %q", i+1, la[i], lb[i])
+		}
+	}
+	return fmt.Sprintf("want %d lines, got %d", len(la), len(lb))
+}
+
+func replayScenarios(path string) []scenario {
+	var rf struct {
+		Failures []struct {
+			Case struct {
+				Scenario *scenario `json:"scenario"`
+			} `json:"case"`
+		} `json:"failures"`
+	}
+	if err := mbt.ReadJSON(path, &rf); err != nil {
+		mbt.Infra("replay %s: %v", path, err)
+	}
+	seen := map[string]bool{}
+	var out []scenario
+	for _, f := range rf.Failures {
+		if sc := f.Case.Scenario; sc != nil && !seen[sc.Name] {
+			seen[sc.Name] = true
+			s := *sc
+			s.Rounds *= 3 // schedules are not replayable: give the race more chances
+			out = append(out, s)
+		}
+	}
+	if len(out) == 0 {
+		// static and trace failures reproduce in any full run
+		return scenarios("quick", mbt.Seed())
+	}
+	return out
+}
